@@ -7,9 +7,11 @@ import (
 	"fmt"
 	"reflect"
 	"testing"
+	"time"
 
 	"github.com/trustbloc/sidetree-core-go/pkg/api/operation"
 	"github.com/trustbloc/sidetree-core-go/pkg/dochandler"
+	"github.com/trustbloc/sidetree-core-go/pkg/document"
 	"github.com/trustbloc/sidetree-core-go/pkg/processor"
 	"pgregory.net/rapid"
 
@@ -40,6 +42,11 @@ type Case struct {
 	Want map[string]interface{} `json:"want,omitempty"`
 	// recover mode: index of the recover R; AltPrefix are replacement pre-R histories that must not matter
 	Recover int `json:"recover,omitempty"`
+	// deactivate mode: ViewAt != 0 asks additionally for the state as of that time (a view that still contains the
+	// deactivate); PendingD says that the deactivate itself is pending (served from the unpublished-operation store,
+	// stamped ViewAt) while the whole extension is anchored later - then only the view as of ViewAt is judged
+	ViewAt   uint64 `json:"viewAt,omitempty"`
+	PendingD bool   `json:"pendingDeactivate,omitempty"`
 }
 
 func init() {
@@ -192,15 +199,28 @@ func anchorSeq(ops []*hist.Op, t0 uint64, tag string) []*hist.Anchored {
 
 func evalDeactivate(c *Case) (kind, sig, msg string) {
 	pub, unpub := c.Stores()
-	got := res.Resolve(c.Client(), c.Suffix, pub, unpub)
-	if got.Panic != "" {
-		return "C04/panic", "panic", got.Panic
+	judge := func(view string, opts ...document.ResolutionOption) (string, string, string) {
+		got := res.Resolve(c.Client(), c.Suffix, pub, unpub, opts...)
+		if got.Panic != "" {
+			return "C04/panic", "panic", got.Panic
+		}
+		if got.Err != "" {
+			return "C04/deactivated-resolve-error", "resolve-error", "resolution of a deactivated DID with later operations failed" + view + ": " + got.Err
+		}
+		if !got.Deactivated || len(got.Doc) != 0 || got.Update != "" || got.Recovery != "" {
+			return "C04/deactivate-not-terminal", "deactivate-not-terminal", fmt.Sprintf("after a valid deactivate and %d later operations the DID resolves%s as %s (want deactivated, empty document, no commitments)", len(c.Ops)-c.PrefixLen, view, js(got))
+		}
+		return "", "", ""
 	}
-	if got.Err != "" {
-		return "C04/deactivated-resolve-error", "resolve-error", "resolution of a deactivated DID with later operations failed: " + got.Err
+	if !c.PendingD {
+		if k, s, m := judge(""); k != "" {
+			return k, s, m
+		}
 	}
-	if !got.Deactivated || len(got.Doc) != 0 || got.Update != "" || got.Recovery != "" {
-		return "C04/deactivate-not-terminal", "deactivate-not-terminal", fmt.Sprintf("after a valid deactivate and %d later operations the DID resolves as %s (want deactivated, empty document, no commitments)", len(c.Ops)-c.PrefixLen, js(got))
+	if c.ViewAt != 0 {
+		// the state as of a time at or after the deactivate: that view contains the deactivate, and whatever else it
+		// contains is a continuation
+		return judge(fmt.Sprintf(" (as of time %d, pending deactivate: %v)", c.ViewAt, c.PendingD), document.WithVersionTime(time.Unix(int64(c.ViewAt), 0).UTC().Format(time.RFC3339)))
 	}
 	return "", "", ""
 }
@@ -222,7 +242,7 @@ func caseID(c *Case) uint64 {
 	for _, o := range c.Ops {
 		parts = append(parts, o.Desc.Name, o.Desc.Time, o.Desc.Num, o.Desc.Published)
 	}
-	parts = append(parts, c.Code, c.PrefixLen, c.Mode)
+	parts = append(parts, c.Code, c.PrefixLen, c.Mode, c.ViewAt, c.PendingD)
 	return ev.Hash(parts...)
 }
 
@@ -253,7 +273,7 @@ func buildDeactivated(t *rapid.T, pool string) (*chain, []*hist.Anchored) {
 }
 
 func TestDeactivateTerminal(t *testing.T) {
-	ev.Rule(chkDeact, "rapid: prefix = create + 0-5 valid updates/recovers + valid deactivate D (one in three with a signed anchoring window that is open when D is anchored; all key types, both hash algorithms), resolved one time in three on a node whose server-clock validator considers every signed window expired; extension = 1-12 operations anchored strictly after D at drawn coordinates, the last 0-2 of them pending (unpublished) with a wall-clock stamp after or before the ledger times: valid updates/recovers/deactivates signed with every key that was ever revealed or committed in the prefix, duplicate creates (same/other delta), forgeries; oracle: Resolve = deactivated, empty document, no commitments; non-trivial = the extension holds >= 1 validly signed non-create operation")
+	ev.Rule(chkDeact, "rapid: prefix = create + 0-5 valid updates/recovers + valid deactivate D (one in three with a signed anchoring window that is open when D is anchored; all key types, both hash algorithms), resolved one time in three on a node whose server-clock validator considers every signed window expired; extension = 1-12 operations anchored strictly after D at drawn coordinates, the last 0-2 of them pending (unpublished) with a wall-clock stamp after or before the ledger times: valid updates/recovers/deactivates signed with every key that was ever revealed or committed in the prefix, duplicate creates (same/other delta), forgeries; one case in two additionally asks for the state as of a drawn time at or after D's, and in one case in four D itself is pending (unpublished, stamped with its acceptance time) while the whole extension is anchored later and the state as of that stamp is asked for; oracle: Resolve = deactivated, empty document, no commitments; non-trivial = the extension holds >= 1 validly signed non-create operation")
 	ev.Rapid(t, chkDeact, 400, 4000, func(t *rapid.T) {
 		ch, prefix := buildDeactivated(t, "c04d")
 		ext := ch.extension(t)
@@ -272,6 +292,15 @@ func TestDeactivateTerminal(t *testing.T) {
 		}
 		hi := func(i int) uint64 { return highs[i] }
 		nUnpub := rapid.SampledFrom([]int{0, 0, 0, 1, 2}).Draw(t, "unpublishedExt")
+		// one case in four: the deactivate itself is still pending (served from the unpublished-operation store with
+		// the wall-clock stamp it was accepted at) while everything after it is anchored later; the state as of the
+		// stamp is then prefix + deactivate, whatever was anchored afterwards
+		pendingD := rapid.IntRange(0, 3).Draw(t, "pendingDeactivate") == 0
+		if pendingD {
+			nUnpub = 0
+			d := ch.ops[len(ch.ops)-1]
+			h[len(h)-1] = d.At(base-1, 0, "", 0)
+		}
 		for i, op := range ext {
 			if i >= len(ext)-nUnpub {
 				ut := uint64(100000 + i)
@@ -283,12 +312,18 @@ func TestDeactivateTerminal(t *testing.T) {
 			}
 			h = append(h, op.At(base+uint64(perm[i]/2), uint64(perm[i])+hi(i), fmt.Sprintf("ref-x%d", i), 0))
 		}
-		c := &Case{Case: *hist.NewCase(ch.suffix, ch.code, 0, h), PrefixLen: len(prefix), Mode: "deactivate"}
+		c := &Case{Case: *hist.NewCase(ch.suffix, ch.code, 0, h), PrefixLen: len(prefix), Mode: "deactivate", PendingD: pendingD}
+		if pendingD {
+			c.ViewAt = base - 1
+		} else if rapid.Bool().Draw(t, "alsoAsOf") {
+			// additionally the state as of a drawn time at or after the deactivate's
+			c.ViewAt = base - 1 + uint64(rapid.IntRange(0, len(ext)/2+1).Draw(t, "asOfOffset"))
+		}
 		// the node's clock may long have left every signed window: what is anchored stays what it is
 		c.ExpiredClock = rapid.IntRange(0, 2).Draw(t, "expiredClock") == 0
 		kind, sig, msg := evalDeactivate(c)
 		n := wouldApply(c)
-		ev.Record(chkDeact, n > 0, caseID(c), fmt.Sprintf("would-apply:%d", min(n, 4)), fmt.Sprintf("prefix:%d", len(prefix)))
+		ev.Record(chkDeact, n > 0, caseID(c), fmt.Sprintf("would-apply:%d", min(n, 4)), fmt.Sprintf("prefix:%d", len(prefix)), fmt.Sprintf("as-of-view:%v", c.ViewAt != 0), fmt.Sprintf("pending-deactivate:%v", pendingD))
 		ev.SampleFn(chkDeact, func() interface{} { return c.Summary() })
 		if kind != "" {
 			ev.Fail(t, chkDeact, kind, sig, c, "%s", msg)
